@@ -49,7 +49,9 @@ def one_state(a, b, x0, timedep, shift):
     if shift == 'step':
         # an input that steps after k=0 and then stays put for longer than the search horizons: the search must use g(0)
         exos = [('g', '[2.] + [4.]*30')]
-    return Block([('x', rhs), ('z', '-x'), ('al', 'x'), ('u', '2*al')], lags=[('LAG_x', 'x')], ics={'x': repr(x0)},
+    # (k_w, t_v: read-outs whose names merely begin like the excluded time names; they are ordinary variables)
+    return Block([('x', rhs), ('z', '-x'), ('al', 'x'), ('u', '2*al'), ('k_w', '3*x'), ('t_v', 'LAG_kw + 1')],
+                 lags=[('LAG_x', 'x'), ('LAG_kw', 'k_w')], ics={'x': repr(x0)},
                  exos=exos, maxtime=30 if shift == 'step' else 3)
 
 
